@@ -18,12 +18,14 @@ import vlib
 from vlib import CheckError
 
 PID = "C13"
-REPLAYS = ["f3a", "f3b", "f3c", "upkey", "collide"]
+REPLAYS = ["f3a", "f3b", "f3c", "upkey", "collide", "close2", "closefault"]
 REPLAY_DOC = {
     "f3a": "BindUpdate (net.Lock -> peers.RLock) vs UAPI remove peer (peers.Lock, Peer.Stop waits for the sender blocked in SendBuffers on net.RLock); Proofs.bindupdate_vs_removepeer_deadlocks",
     "f3b": "UAPI private_key equal to a peer's key (staticIdentity.Lock + peers.Lock, Peer.Stop waits for the sender) vs the sender's rekey (CreateMessageInitiation -> staticIdentity.RLock); Proofs.setprivatekey_collision_vs_sender_rekey_deadlocks",
     "f3c": "UAPI private_key (staticIdentity.Lock, ExpireCurrentKeypairs -> handshake.Lock) vs ConsumeMessageResponse (handshake.RLock -> staticIdentity.RLock); Proofs.setprivatekey_vs_consume_response_deadlocks",
     "collide": "scenario that must return: IpcSet(private_key = a running peer's key) on an up device without traffic / aged key / handshake in flight, then IpcGet, Down, Close (three variants)",
+    "close2": "scenario that must hold: two overlapping Close() calls while (A) a UAPI set on a stalled pipe holds ipcMutex / (B) Up is parked in bind.Open holding state.mu; nothing panics, device closed, goroutines gone",
+    "closefault": "scenario that must hold: bind.Close reports an error although it closed and receive calls notice only after 300 ms; when Down / Close return no RoutineReceiveIncoming goroutine is parked in its loop",
     "upkey": "Up (peers.RLock in upLocked, keepalive -> CreateMessageInitiation -> staticIdentity.RLock) vs direct device.SetPrivateKey (staticIdentity.Lock -> peers.Lock); Proofs.up_keepalive_vs_direct_setprivatekey_deadlocks",
 }
 K_NAMES = ["bind-log(observed Open/Close/Send + call log |= Automaton.holdsb, shape = Automaton.closeopenb)",
@@ -34,7 +36,7 @@ K_NAMES = ["bind-log(observed Open/Close/Send + call log |= Automaton.holdsb, sh
            "deadlock-replays(each ..._deadlocks schedule replayed on the real code, signature reported; plus the must-return scenario 'collide')"]
 RULE = ("one round = a fresh device (sim bind/tun, 3 ref peers) driven by N concurrent callers running random plans of "
         "{Up, Down, BindUpdate, IpcSet(add/remove peer, replace_peers, listen_port, private_key, keepalive, endpoint, fwmark), IpcGet, MTU event, "
-        "TUN bursts, Close mid-plan in 1/3 of the rounds} with network+TUN traffic and handshakes in both directions, then Down/Close and calls after Close; "
+        "TUN bursts, Close mid-plan in 1/3 of the rounds} with network+TUN traffic and handshakes in both directions, then Down/Close (final Close by two goroutines in half of the rounds; in 1/5 of the rounds the sim bind reports an error from Close and its receive calls notice the close 45 ms late) and calls after Close; "
         "plans come from one PRNG (seed, round); excluded overlaps (the listed findings): direct BindUpdate || peer-set/private-key UAPI sets, "
         "private_key sets in rounds that answer the device's initiations, private_key equal to a peer's key; "
         "non-trivial = the round's trace has >= 2 bind opens and >= 1 quiet window after a clean Down (decided inside Coq by Check.nontrivial); "
@@ -64,7 +66,7 @@ def run_replay(mode, exe, timeout=150):
                 return r
             except ValueError:
                 pass
-    return {"replay": mode, "error": "no result line", "rc": p.returncode, "stderr": p.stderr[-4000:], "stdout": p.stdout[-1000:]}
+    return {"replay": mode, "error": "no result line", "rc": p.returncode, "stderr": (p.stderr if len(p.stderr) < 12000 else p.stderr[:8000] + "\n...\n" + p.stderr[-4000:]), "stdout": p.stdout[-1000:]}
 
 
 def crash_violation(stderr):
@@ -249,9 +251,14 @@ def check(tier, seed):
                           "entries": r.get("entries"), "steps": r.get("steps"), "input": {"replay_mode": m, "cmd": "out/bin/c13 -mode %s -stacks" % m}})
             if m == "collide":
                 viols[-1]["detail"] = "scenario that returns on the reference tree hangs: " + REPLAY_DOC[m]
+        elif r.get("violation"):
+            replay_summary[m] = r["key"]
+            viols.append({"key": r["key"], "kind": "scenario", "detail": "scenario %s: %s (%s)" % (m, r.get("detail"), REPLAY_DOC[m]),
+                          "steps": r.get("steps"), "input": {"replay_mode": m, "cmd": "out/bin/c13 -mode %s" % m}})
         elif "error" in r:
             cv = crash_violation(r.get("stderr", ""))
             if cv and cv["device_frame"]:
+                cv["detail"] += " (in scenario %s: %s)" % (m, REPLAY_DOC[m])
                 replay_summary[m] = cv["key"]
                 viols.append({"key": cv["key"], "kind": "panic", "detail": cv["detail"], "stderr": cv["stderr"], "input": {"replay_mode": m}})
             else:
@@ -322,7 +329,7 @@ def check(tier, seed):
     for v in viols:
         if v["key"] in known:
             continue
-        k_broken.add({"hang": 1, "race": 2, "panic": 3, "census": 4, "deadlock-replay": 5, "trace": 0, "error": 3}.get(v["kind"], 0))
+        k_broken.add({"hang": 1, "race": 2, "panic": 3, "census": 4, "deadlock-replay": 5, "scenario": 5, "trace": 0, "error": 3}.get(v["kind"], 0))
     if mism:
         k_broken.add(0)
     obligations = len(theorems) + len(K_NAMES)
@@ -386,7 +393,7 @@ def replay(path):
     if isinstance(inp, dict) and inp.get("replay_mode"):
         r = run_replay(inp["replay_mode"], exe)
         print(json.dumps({k: v for k, v in r.items() if k != "stacks"}))
-        if r.get("hang"):
+        if r.get("hang") or r.get("violation") or (r.get("error") and crash_violation(r.get("stderr", ""))):
             print("VIOLATION property=C13 replay=%s" % path)
             return 1
         return 0
